@@ -156,8 +156,19 @@ func (c *Ctx) loopsOf(fn *ssa.Function) map[*ssa.BasicBlock]*Loop {
 	for h := range res {
 		hs = append(hs, h)
 	}
+	minPos := func(lp *Loop) int {
+		best := int(^uint(0) >> 1)
+		for b := range lp.Blocks {
+			for _, in := range b.Instrs {
+				if p := in.Pos(); p.IsValid() && int(p) < best {
+					best = int(p)
+				}
+			}
+		}
+		return best
+	}
 	sort.Slice(hs, func(i, j int) bool {
-		pi, pj := headerPos(hs[i]), headerPos(hs[j])
+		pi, pj := minPos(res[hs[i]]), minPos(res[hs[j]])
 		if pi != pj {
 			return pi < pj
 		}
